@@ -8,6 +8,9 @@
      ST <n> <status> | HB <n> | DR <n> | LD <n> <load> | RM <n>
      RB <order>                   order = n,n,... registry iteration order ("-" = empty)
      RT <shard> <order>
+     RTI <shard> <order> <spec>   route_write with interference at the pause point between assignment and
+                                  lookup; spec = attempts separated by '/', mutations by '+', fields by '.':
+                                  ST.<n>.<status> | LD.<n>.<load> | RM.<n> | _ (nothing); used cyclically
      OB
    or the single word `consts`.
    Output line: one token per operation, separated by ';':
@@ -36,6 +39,17 @@ let show_reg (st : state) : string =
   let r = List.sort compare
       (List.map (fun (n, i) -> (int_of_n n, type_code i.n_type, status_code i.n_status, int_of_n i.n_load)) st.st_reg) in
   "reg=" ^ String.concat "," (List.map (fun (n, t, s, l) -> Printf.sprintf "%d:%d:%d:%d" n t s l) r)
+
+let regop_of (t : string) : regop list =
+  match split_on '.' t with
+  | ["ST"; n; stt] -> [RStatus (n_of_string n, status_of stt)]
+  | ["LD"; n; l] -> [RLoad (n_of_string n, n_of_string l)]
+  | ["RM"; n] -> [RRemove (n_of_string n)]
+  | ["_"] | [] -> []
+  | _ -> failwith ("bad interference op: " ^ t)
+
+let spec_of (s : string) : regop list list =
+  List.map (fun att -> List.concat (List.map regop_of (split_on '+' att))) (split_on '/' s)
 
 exception Stop
 
@@ -83,6 +97,7 @@ let run_line (line : string) : string =
            | ["RB"] -> apply (ORebalance [])
            | ["RT"; s; o] -> apply (ORoute (n_of_string s, order_of o))
            | ["RT"; s] -> apply (ORoute (n_of_string s, []))
+           | ["RTI"; s; o; sp] -> apply (ORouteI (n_of_string s, order_of o, spec_of sp))
            | ["OB"] -> emit (show_reg !st)
            | _ -> failwith ("bad op: " ^ tok)) (split_on ';' line)
      with Stop -> ());
